@@ -14,6 +14,7 @@ CONSTANTS
   DsHist = 3
   DsOps = {"pk2d", "pk4d", "setmon"}
   NMon = 1
+  Neg = FALSE
   Shape = "simple"
 INVARIANT TypeOK
 INVARIANT DsLaw
